@@ -13,11 +13,22 @@ pub fn run(_v: &serde_json::Value, rep: &mut Report) -> Result<(), String> {
     starts.push(p - 2); starts.push(p - 1); starts.push(p);
     starts.push(u64::MAX - 3);
     starts.push(u64::MAX - 1);   // the third call wraps the counter: ids must go on (from counter 0), not repeat
+    // reproducibility: fresh generators over the same namespace issue the same ids, which are the documented
+    // derivation from the call number; another namespace gives other ids
+    {
+        let (a, b) = (UuidGenerator::new(ns), UuidGenerator::new(ns));
+        let other = UuidGenerator::new(uuid::Uuid::parse_str("6ba7b811-9dad-11d1-80b4-00c04fd430c8").unwrap());
+        for c in 0..300u64 {
+            let (x, y, z) = (a.next(), b.next(), other.next());
+            let want = uuid::Uuid::new_v5(&ns, c.to_string().as_bytes());
+            if x != y { rep.violation("C14", "UuidGenerator.reproducible_for_same_namespace", format!("call #{c}: two fresh generators over the same namespace returned {x} and {y}")); return Ok(()); }
+            if x != want { rep.violation("C14", "UuidGenerator.next.id_derived_from_pre_increment_counter", format!("call #{c} of a fresh generator returned {x}, the documented derivation v5(namespace, \"{c}\") is {want}")); return Ok(()); }
+            if x == z { rep.violation("C14", "UuidGenerator.namespace_is_used", format!("call #{c}: generators over different namespaces returned the same id {x}")); return Ok(()); }
+        }
+    }
     let mut seen: HashMap<uuid::Uuid, u64> = HashMap::new();
     for s in starts {
         let g: UuidGenerator = serde_json::from_value(serde_json::json!({"namespace": ns, "counter": s})).map_err(|e| format!("cannot position generator: {e}"))?;
-        let fresh = UuidGenerator::new(ns);
-        let _ = fresh;
         for k in 0..3u64 {
             let c = s.wrapping_add(k);
             let id = g.next();
